@@ -110,7 +110,7 @@ def register(op):
         return utils.split_complex(utils.make_lol_sequence(list(seq)), utils.make_pair_table(list(struct)))
 
     def mat(rna):
-        return "RNA" if rna else "DNA"
+        return "".join(["R" if rna else "D", "N", "A"])
     for name in ("wc_complement", "complement", "reverse_wc_complement", "reverse_complement"):
         def f(a, name=name):
             return getattr(dep.SequenceConstraint(a[0], mat(a[1])), name)
